@@ -66,6 +66,30 @@ def seed_from_env():
     except ValueError:
         return 1
 
+# ------------------------------------------------------------------------------------------------
+# Build phases (translators, coq make, Print Assumptions pass, harness and driver builds) share files under /verif/coq,
+# /verif/extract/gen and /verif/.build. Checks may be started concurrently: those phases are serialised by one lock file
+# (re-entrant within a process); running the cases is not locked.
+import fcntl, functools
+_LOCK = {"depth": 0, "fd": None}
+def locked_build(fn):
+    @functools.wraps(fn)
+    def wrapper(*a, **kw):
+        if _LOCK["depth"] == 0:
+            os.makedirs(os.path.join(VERIF, ".build"), exist_ok=True)
+            fd = open(os.path.join(VERIF, ".build", "lock"), "w")
+            fcntl.flock(fd, fcntl.LOCK_EX)
+            _LOCK["fd"] = fd
+        _LOCK["depth"] += 1
+        try:
+            return fn(*a, **kw)
+        finally:
+            _LOCK["depth"] -= 1
+            if _LOCK["depth"] == 0:
+                fcntl.flock(_LOCK["fd"], fcntl.LOCK_UN)
+                _LOCK["fd"].close(); _LOCK["fd"] = None
+    return wrapper
+
 def _bigstack():
     """extracted OCaml recurses on the system stack (lists of thousands of cases): raise the soft stack limit"""
     import resource
@@ -142,6 +166,7 @@ def compile_objects(bdir, sources, flags, cxx=True, jobs=NCPU):
 class BuildError(Exception):
     pass
 
+@locked_build
 def build_harness(name, harness_srcs, flavour="faithful", extra_flags=(), repo_srcs=None, fitter=False, libs=(), tag=None):
     """Builds harness executable `name` from /repo's CURRENT working tree (never from /repo/_build).
     Cached by a content hash of every input; returns path of the executable."""
@@ -182,6 +207,7 @@ def translator_scripts():
         scripts += [os.path.join(tdir, f) for f in sorted(os.listdir(tdir)) if f.endswith(".py")]
     return scripts
 
+@locked_build
 def run_translator():
     """tools/translate_tables.py, then every tools/translators/*.py (each writes coq/theories/Generated_<name>.v
     from /repo's working tree and fails closed with a non-zero status); then _CoqProject is brought up to date.
@@ -226,6 +252,7 @@ def translators_for(prop_file):
             out.append(os.path.basename(sc))
     return out
 
+@locked_build
 def coq_build(targets, timeout=1500):
     """make the given .vo targets (full .vo build). Returns (ok, log)."""
     run([sys.executable, os.path.join(VERIF, "tools", "gen_coqproject.py")], check=True)
@@ -263,6 +290,7 @@ def grep_gate():
             bad.append(f + ": forbidden flag")
     return bad
 
+@locked_build
 def properties_report(prop_file):
     """Re-run coqc on Properties_<id>.v to capture what it states: the theorem names and the Print
     Assumptions output beneath each. Returns (ok, theorems:list, assumptions:dict name->text, log)."""
@@ -281,6 +309,7 @@ def properties_report(prop_file):
         assumptions[name] = "closed" if b.startswith("Closed") else " ".join(b.split())[:600]
     return ok, thms, assumptions, (p.stdout + p.stderr)[-4000:]
 
+@locked_build
 def build_extracted(driver_ml, out_name=None, modname=None, extract_v=None):
     """Convention: build_extracted("<name>") uses extract/Extract_<name>.v (which must say
     Extraction "<name>model.ml" ...), extract/<name>_driver.ml, and produces extract/gen/<name>_driver.
